@@ -17,6 +17,7 @@ import (
 	"strconv"
 	"strings"
 	"sync"
+	"sync/atomic"
 	"syscall"
 	"time"
 
@@ -532,7 +533,14 @@ func runChild(id, tier string, seed uint64, bdir, bin string, r *childRun, timeo
 		cmd.Env = env
 		cmd.Stdout = lf
 		cmd.Stderr = lf
-		err := cmd.Run()
+		var memKilled atomic.Bool
+		err := cmd.Start()
+		if err == nil {
+			stopWatch := make(chan struct{})
+			go memWatch(cmd.Process.Pid, stopWatch, &memKilled)
+			err = cmd.Wait()
+			close(stopWatch)
+		}
 		lf.Close()
 		code := 0
 		if err != nil {
@@ -563,6 +571,10 @@ func runChild(id, tier string, seed uint64, bdir, bin string, r *childRun, timeo
 		lastCase := lastJournalCase(journal)
 		logTxt := readTail(logf, 400_000)
 		switch {
+		case memKilled.Load():
+			// not a verdict on the property: the case is left undecided and the batch goes on after it
+			r.inconc = append(r.inconc, mon.Inconc{Reason: fmt.Sprintf("child stopped by the driver: resident memory above %d MiB (runaway allocation in this case?); case journal: %s", maxRSSMiB(), journalLine(journal, lastCase)), Case: lastCase})
+			r.notes = append(r.notes, fmt.Sprintf("child %s exceeded the memory limit at case %d", tag, lastCase))
 		case code == 3:
 			var h mon.Hang
 			if hb, e := os.ReadFile(out + ".hang"); e == nil {
@@ -570,9 +582,9 @@ func runChild(id, tier string, seed uint64, bdir, bin string, r *childRun, timeo
 			}
 			if h.Class == "deadlock" || h.Class == "spin" {
 				r.viol = append(r.viol, mon.Violation{
-					Sig:  "hang/" + h.Class + "@" + h.Frame,
-					Msg:  fmt.Sprintf("no progress: %s witness in %s; case journal: %s", h.Class, h.Frame, journalLine(journal, lastCase)),
-					Case: lastCase,
+					Sig:    "hang/" + h.Class + "@" + h.Frame,
+					Msg:    fmt.Sprintf("no progress: %s witness in %s; case journal: %s", h.Class, h.Frame, journalLine(journal, lastCase)),
+					Case:   lastCase,
 					Replay: map[string]any{"journal": journalLine(journal, lastCase), "frames": h.Frames, "dump": trunc(h.Dump, 20000)},
 				})
 			} else {
@@ -585,9 +597,9 @@ func runChild(id, tier string, seed uint64, bdir, bin string, r *childRun, timeo
 			kind, frame, first := classifyCrash(logTxt)
 			if kind != "" && frame != "" {
 				r.viol = append(r.viol, mon.Violation{
-					Sig:  "crash/" + kind + "@" + frame,
-					Msg:  fmt.Sprintf("process died: %s; case journal: %s", first, journalLine(journal, lastCase)),
-					Case: lastCase,
+					Sig:    "crash/" + kind + "@" + frame,
+					Msg:    fmt.Sprintf("process died: %s; case journal: %s", first, journalLine(journal, lastCase)),
+					Case:   lastCase,
 					Replay: map[string]any{"journal": journalLine(journal, lastCase), "trace": trunc(crashTrace(logTxt), 20000)},
 				})
 			} else if strings.Contains(logTxt, "SIGQUIT") || code == 124 || code == 128+3 {
@@ -612,6 +624,52 @@ func runChild(id, tier string, seed uint64, bdir, bin string, r *childRun, timeo
 		r.resumes++
 	}
 	r.notes = append(r.notes, fmt.Sprintf("child %s/%d gave up after 12 restarts", r.build, r.idx))
+}
+
+// maxRSSMiB: resident-memory limit per child process (VERIF_MAX_RSS_MIB, default 12288).
+func maxRSSMiB() int {
+	if v, err := strconv.Atoi(os.Getenv("VERIF_MAX_RSS_MIB")); err == nil && v > 0 {
+		return v
+	}
+	return 12288
+}
+
+// memWatch polls the resident set size of the test binary (the child of the `timeout` wrapper) and
+// stops it with SIGQUIT (goroutine dump into the log) when it grows beyond the limit, so that a
+// runaway case - e.g. io.ReadAll on a stream that never ends on a mutated tree - cannot exhaust the machine.
+func memWatch(pid int, stop <-chan struct{}, killed *atomic.Bool) {
+	limit := int64(maxRSSMiB()) << 20
+	for {
+		select {
+		case <-stop:
+			return
+		case <-time.After(500 * time.Millisecond):
+		}
+		b, err := os.ReadFile(fmt.Sprintf("/proc/%d/task/%d/children", pid, pid))
+		if err != nil {
+			continue
+		}
+		for _, f := range strings.Fields(string(b)) {
+			sm, err := os.ReadFile("/proc/" + f + "/statm")
+			if err != nil {
+				continue
+			}
+			fs := strings.Fields(string(sm))
+			if len(fs) < 2 {
+				continue
+			}
+			pages, _ := strconv.ParseInt(fs[1], 10, 64)
+			if pages*4096 > limit {
+				if cp, err := strconv.Atoi(f); err == nil {
+					killed.Store(true)
+					syscall.Kill(cp, syscall.SIGQUIT)
+					time.Sleep(5 * time.Second)
+					syscall.Kill(cp, syscall.SIGKILL)
+				}
+				return
+			}
+		}
+	}
 }
 
 func trunc(s string, n int) string {
